@@ -7,6 +7,7 @@ from tempest.state_manager import StateManager
 from tempest.tools import ProgressBar
 from tempest.modes import ModeStatistics
 from tempest.mcmc import parallel_mcmc
+from tempest import _verif
 
 
 class Mutator:
@@ -121,6 +122,7 @@ class Mutator:
 
             # Resample prior particles with infinite likelihoods
             inf_logl_mask = np.isinf(logl)
+            _verif.emit("prior_batch", mutator=self, logl=logl.copy(), inf_mask=inf_logl_mask)
             if np.any(inf_logl_mask):
                 all_idx = np.arange(len(x))
                 infinite_idx = all_idx[inf_logl_mask]
